@@ -95,7 +95,26 @@ def make_sequences(corpus, pool, n_seq, max_len, rng, boundary=True):
     return out
 
 
-def judge_stream(seq, msgs, frame_lens=None):
+def chunk_pattern(rng):
+    """sizes of successive short reads of a blocking transport (cycled by the driver)"""
+    return rng.choice(['1', '1', '2', '3', '1.2.3', '1.4096', '5.1.1.2'] + ['.'.join(str(rng.choice([1, 1, 2, 3, 5, 8, 64])) for _ in range(rng.randint(2, 6)))])
+
+
+def mismatch_names(seq, pool_names, rng, p=0.35):
+    """names column for the typed readers in which some messages are asked for under a different name (prefix '!'): the
+    helper has to answer with an Opcode error and still consume the whole frame. -> (names, set of mismatched positions)"""
+    names, mis = [], set()
+    for i, v in enumerate(seq['frames']):
+        others = [n for n, op in pool_names if op != v['opcode']]
+        if others and rng.random() < p:
+            names.append('!' + rng.choice(others))
+            mis.add(i)
+        else:
+            names.append(v['object'])
+    return ','.join(names), mis
+
+
+def judge_stream(seq, msgs, frame_lens=None, mismatched=()):
     """msgs: list of per-message driver records (result,pos,out). frame_lens: lengths of the frames of the
     stream that was actually read when it is the library's own rendering (compressed frames differ in length
     from the reference rendering). -> None or dict(reason=...)"""
@@ -111,6 +130,14 @@ def judge_stream(seq, msgs, frame_lens=None):
     pos = 0
     for i, (v, f, m) in enumerate(zip(seq['frames'], frames, msgs)):
         pos += lens[i]
+        if i in mismatched:
+            if m.get('result') != 'err' or m.get('err_kind') != 'Opcode':
+                return {'reason': 'mismatch-answer', 'at': i, 'object': v['object'], 'detail': {k: str(x)[:120] for k, x in m.items() if k != 'out'}}
+            if m.get('err_value') != v['opcode']:
+                return {'reason': 'mismatch-opcode', 'at': i, 'object': v['object'], 'detail': f'reports opcode {m.get("err_value")}, the message has {v["opcode"]}'}
+            if m.get('pos') != pos:
+                return {'reason': 'mismatch-position', 'at': i, 'object': v['object'], 'detail': f'reader at {m.get("pos")} after the rejected message, frame ends at {pos}'}
+            continue
         if m.get('result') != 'ok':
             return {'reason': 'error', 'at': i, 'object': v['object'], 'detail': {k: str(x)[:120] for k, x in m.items()}}
         if m.get('pos') != pos:
